@@ -165,4 +165,235 @@ theorem defsInsert_sorted (k : ObjId) (v : Located Obj) (m : Defs) (hs : DefsSor
         subst hk
         exact List.pairwise_cons.mpr ⟨hlt, hs'⟩
 
+/-! ## shift lemmas -/
+
+theorem peek_shift (a b : Bytes) (k : Nat) : peek (a ++ b) (a.length + k) = peek b k := by
+  simp [peek, List.getElem?_append_right]
+
+theorem drop_shift (a b : Bytes) (k : Nat) : (a ++ b).drop (a.length + k) = b.drop k := by
+  rw [List.drop_append]
+  simp
+
+theorem startsWith_shift (t a b : Bytes) (k : Nat) : startsWith t (a ++ b) (a.length + k) = startsWith t b k := by
+  simp [startsWith]
+
+theorem exact_shift (t a b : Bytes) (k : Nat) :
+    exact t (a ++ b) (a.length + k) = ((exact t b k).1, a.length + (exact t b k).2) := by
+  unfold exact
+  rw [startsWith_shift]
+  split <;> simp <;> omega
+
+theorem skipByte_shift (c : UInt8) (a b : Bytes) (k : Nat) :
+    skipByte c (a ++ b) (a.length + k) = a.length + skipByte c b k := by
+  unfold skipByte
+  rw [peek_shift]
+  split <;> omega
+
+/-- move a stream-content result by `d` positions -/
+def shiftSC (d : Nat) : Res (Located StreamContent) × Nat → Res (Located StreamContent) × Nat
+  | (.ok v, c) => (.ok ⟨⟨d + v.val.start, v.val.size, v.val.content⟩, d + v.start, d + v.stop⟩, d + c)
+  | (.err k, c) => (.err k, d + c)
+  | (.panic m, c) => (.panic m, d + c)
+
+theorem beq_add_left (a x y : Nat) : (a + x == a + y) = (x == y) := by
+  by_cases h : x = y
+  · subst h; rw [beq_self_eq_true, beq_self_eq_true]
+  · have : a + x ≠ a + y := by omega
+    rw [beq_eq_false_iff_ne.mpr h, beq_eq_false_iff_ne.mpr this]
+
+theorem beq_self_add (x y : Nat) : (x == x + y) = (y == 0) := by
+  by_cases h : y = 0
+  · subst h; simp
+  · have : x ≠ x + y := by omega
+    rw [beq_eq_false_iff_ne.mpr h, beq_eq_false_iff_ne.mpr this]
+
+theorem streamContentP_shift (n : Nat) (strict : Bool) (a b : Bytes) (k : Nat) :
+    streamContentP n strict (a ++ b) (a.length + k) = shiftSC a.length (streamContentP n strict b k) := by
+  unfold streamContentP
+  rw [exact_shift]
+  cases h0 : exact kwStream b k with
+  | mk r j0 =>
+    cases r with
+    | false => simp [shiftSC]
+    | true =>
+      simp only
+      rw [skipByte_shift, peek_shift]
+      split
+      · simp [shiftSC]
+      · simp only [Nat.add_assoc, List.length_append, Nat.add_sub_add_left, drop_shift, skipByte_shift, exact_shift,
+          beq_add_left]
+        split
+        · simp [shiftSC]
+        · split
+          · simp [shiftSC]
+          · cases exact kwEndstream b (skipByte 10 b (skipByte 13 b (skipByte 13 b j0 + (1 + n)))) with
+            | mk r e3 => cases r <;> simp [shiftSC]
+
+theorem skipByte_at {c : UInt8} {a b : Bytes} {j : Nat} (h : j = a.length) :
+    skipByte c (a ++ b) j = j + skipByte c b 0 := by
+  subst h; simpa using skipByte_shift c a b 0
+
+theorem skipByte_at' {c : UInt8} {a b : Bytes} {j k : Nat} (h : j = a.length + k) :
+    skipByte c (a ++ b) j = a.length + skipByte c b k := by
+  subst h; exact skipByte_shift c a b k
+
+theorem exact_at' {t a b : Bytes} {j k : Nat} (h : j = a.length + k) :
+    exact t (a ++ b) j = ((exact t b k).1, a.length + (exact t b k).2) := by
+  subst h; exact exact_shift t a b k
+
+/-- the model's closing steps on the bytes after the data: length of `[CR][LF] endstream` -/
+def closeLen (strict : Bool) (post : Bytes) : Option Nat :=
+  let e2 := skipByte 10 post (skipByte 13 post 0)
+  if strict && e2 == 0 then none
+  else if startsWith kwEndstream post e2 then some (e2 + 9) else none
+
+theorem head_facts (e1 rest : Bytes) (he : e1 ∈ Framing.eolsAfterStream) :
+    exact kwStream (kwStream ++ e1 ++ rest) 0 = (true, 6) ∧
+    skipByte 13 (kwStream ++ e1 ++ rest) 6 + 1 = 6 + e1.length ∧
+    peek (kwStream ++ e1 ++ rest) (skipByte 13 (kwStream ++ e1 ++ rest) 6) = some 10 := by
+  simp only [Framing.eolsAfterStream, List.mem_cons, List.not_mem_nil, or_false] at he
+  rcases he with rfl | rfl
+  · simp [exact, startsWith, kwStream, skipByte, peek]
+  · simp [exact, startsWith, kwStream, skipByte, peek]
+
+theorem streamContentP_closed (n : Nat) (strict : Bool) (e1 w post : Bytes)
+    (he : e1 ∈ Framing.eolsAfterStream) (hw : w.length = n) :
+    streamContentP n strict (kwStream ++ e1 ++ w ++ post) 0 =
+      match closeLen strict post with
+      | some k => (.ok ⟨⟨6 + e1.length, n, w⟩, 0, 6 + e1.length + n + k⟩, 6 + e1.length + n + k)
+      | none => (.err .guard, 0) := by
+  have hh := head_facts e1 (w ++ post) he
+  have hs : kwStream ++ e1 ++ (w ++ post) = kwStream ++ e1 ++ w ++ post := by simp
+  rw [hs] at hh
+  obtain ⟨h1, h2, h3⟩ := hh
+  have hlen : (kwStream ++ e1 ++ w).length = 6 + e1.length + n := by simp [kwStream, hw]; omega
+  unfold streamContentP
+  rw [h1]
+  simp only [h3, h2]
+  have hd : (kwStream ++ e1 ++ w ++ post).drop (6 + e1.length) = w ++ post := by
+    have : (kwStream ++ e1).length = 6 + e1.length := by simp [kwStream]; omega
+    rw [← this, List.append_assoc (kwStream ++ e1), List.drop_left]
+  have hL : (kwStream ++ e1 ++ w ++ post).length - (6 + e1.length) < n ↔ False := by
+    simp [kwStream]; omega
+  rw [hd, ← hw, List.take_left]
+  simp only [bne_self_eq_false, Bool.false_eq_true, if_false]
+  rw [if_neg (by have : kwStream.length = 6 := rfl
+                 simp only [List.length_append]; omega)]
+  have hl : 6 + e1.length + w.length = (kwStream ++ e1 ++ w).length + 0 := by omega
+  rw [skipByte_at' (a := kwStream ++ e1 ++ w) (b := post) (k := 0) hl]
+  rw [skipByte_at' (a := kwStream ++ e1 ++ w) (b := post) (k := skipByte 13 post 0) rfl]
+  rw [exact_at' (a := kwStream ++ e1 ++ w) (b := post) (k := skipByte 10 post (skipByte 13 post 0)) rfl]
+  rw [hlen, ← hw, beq_self_add]
+  unfold closeLen
+  simp only
+  cases hc : (strict && skipByte 10 post (skipByte 13 post 0) == 0)
+  · simp only [Bool.false_eq_true, if_false]
+    unfold exact
+    cases hsw : startsWith kwEndstream post (skipByte 10 post (skipByte 13 post 0))
+    · simp
+    · simp [kwEndstream]
+  · simp
+
+theorem take_skip (post : Bytes) :
+    post.take (skipByte 10 post (skipByte 13 post 0)) ∈ Framing.eolsBeforeEndstream ∧
+    (post.take (skipByte 10 post (skipByte 13 post 0))).length = skipByte 10 post (skipByte 13 post 0) := by
+  rcases post with _ | ⟨x, _ | ⟨y, t⟩⟩
+  · simp [skipByte, peek, Framing.eolsBeforeEndstream]
+  · by_cases hx : x = 13
+    · subst hx; simp [skipByte, peek, Framing.eolsBeforeEndstream]
+    · by_cases hx2 : x = 10
+      · subst hx2; simp [skipByte, peek, Framing.eolsBeforeEndstream]
+      · simp [skipByte, peek, Framing.eolsBeforeEndstream, hx, hx2]
+  · by_cases hx : x = 13
+    · subst hx
+      by_cases hy : y = 10
+      · subst hy; simp [skipByte, peek, Framing.eolsBeforeEndstream]
+      · simp [skipByte, peek, Framing.eolsBeforeEndstream, hy]
+    · by_cases hx2 : x = 10
+      · subst hx2; simp [skipByte, peek, Framing.eolsBeforeEndstream]
+      · simp [skipByte, peek, Framing.eolsBeforeEndstream, hx, hx2]
+
+theorem closeLen_iff (strict : Bool) (post : Bytes) (k : Nat) :
+    closeLen strict post = some k ↔
+      ∃ e2 ∈ Framing.eolsBeforeEndstream, ∃ tail : Bytes,
+        post = e2 ++ kwEndstream ++ tail ∧ k = e2.length + 9 ∧ (strict = true → e2 ≠ []) := by
+  constructor
+  · intro h
+    unfold closeLen at h
+    simp only at h
+    obtain ⟨hm, hl⟩ := take_skip post
+    split at h
+    · cases h
+    · rename_i hc
+      split at h
+      · rename_i hsw
+        cases h
+        obtain ⟨tail, ht⟩ := List.isPrefixOf_iff_prefix.mp hsw
+        refine ⟨_, hm, tail, ?_, by rw [hl], ?_⟩
+        · rw [List.append_assoc, ht, List.take_append_drop]
+        · intro hs he
+          apply hc
+          rw [hs, ← hl, he]; rfl
+      · cases h
+  · rintro ⟨e2, hm, tail, rfl, rfl, hs⟩
+    simp only [Framing.eolsBeforeEndstream, List.mem_cons, List.not_mem_nil, or_false] at hm
+    rcases hm with rfl | rfl | rfl | rfl
+    · cases strict <;> simp_all [closeLen, skipByte, peek, startsWith, kwEndstream]
+    · cases strict <;> simp [closeLen, skipByte, peek, startsWith, kwEndstream]
+    · cases strict <;> simp [closeLen, skipByte, peek, startsWith, kwEndstream]
+    · cases strict <;> simp [closeLen, skipByte, peek, startsWith, kwEndstream]
+
+theorem streamContentP_nokw (n : Nat) (strict : Bool) (b : Bytes) (h : ¬ kwStream <+: b) :
+    streamContentP n strict b 0 = (.err .guard, 0) := by
+  have : exact kwStream b 0 = (false, 0) := by
+    unfold exact startsWith
+    rw [List.drop_zero]
+    cases hh : kwStream.isPrefixOf b
+    · rfl
+    · exact absurd (List.isPrefixOf_iff_prefix.mp hh) h
+  unfold streamContentP
+  rw [this]
+
+theorem streamContentP_badeol (n : Nat) (strict : Bool) (r : Bytes)
+    (h : ∀ e1 ∈ Framing.eolsAfterStream, ¬ e1 <+: r) :
+    streamContentP n strict (kwStream ++ r) 0 = (.err .guard, 0) := by
+  have h10 := h [10] (by simp [Framing.eolsAfterStream])
+  have h1310 := h [13, 10] (by simp [Framing.eolsAfterStream])
+  rcases r with _ | ⟨x, _ | ⟨y, t⟩⟩
+  · simp [streamContentP, exact, startsWith, kwStream, skipByte, peek]
+  · have hx : x ≠ 10 := by intro e; subst e; exact h10 ⟨[], rfl⟩
+    by_cases hx2 : x = 13
+    · subst hx2; simp [streamContentP, exact, startsWith, kwStream, skipByte, peek]
+    · simp [streamContentP, exact, startsWith, kwStream, skipByte, peek, hx, hx2]
+  · have hx : x ≠ 10 := by intro e; subst e; exact h10 ⟨y :: t, rfl⟩
+    by_cases hx2 : x = 13
+    · subst hx2
+      have hy : y ≠ 10 := by intro e; subst e; exact h1310 ⟨t, rfl⟩
+      simp [streamContentP, exact, startsWith, kwStream, skipByte, peek, hy]
+    · simp [streamContentP, exact, startsWith, kwStream, skipByte, peek, hx, hx2]
+
+theorem streamContentP_short (n : Nat) (strict : Bool) (e1 r' : Bytes)
+    (he : e1 ∈ Framing.eolsAfterStream) (hl : r'.length < n) :
+    streamContentP n strict (kwStream ++ e1 ++ r') 0 = (.err .eob, 0) := by
+  obtain ⟨h1, h2, h3⟩ := head_facts e1 r' he
+  unfold streamContentP
+  rw [h1]
+  simp only [h3, h2]
+  simp only [bne_self_eq_false, Bool.false_eq_true, if_false]
+  rw [if_pos (by have : kwStream.length = 6 := rfl
+                 simp only [List.length_append]; omega)]
+
+/-! ## StreamContentP at an arbitrary position -/
+
+theorem streamContentP_at (n : Nat) (strict : Bool) (s : Bytes) (p : Nat) (hp : p ≤ s.length) :
+    streamContentP n strict s p = shiftSC p (streamContentP n strict (s.drop p) 0) := by
+  have h := streamContentP_shift n strict (s.take p) (s.drop p) 0
+  rw [List.take_append_drop, List.length_take, Nat.min_eq_left hp, Nat.add_zero] at h
+  exact h
+
+/-- replace the content of a successful result -/
+def setContent (w : Bytes) : Res (Located StreamContent) × Nat → Res (Located StreamContent) × Nat
+  | (.ok v, c) => (.ok ⟨⟨v.val.start, v.val.size, w⟩, v.start, v.stop⟩, c)
+  | r => r
+
 end Parsley.Indirect
